@@ -341,6 +341,13 @@ func mutationsFor(root *sber.Node, nrep int) []Mut {
 		if len(p) > 0 {
 			out = append(out, Mut{p, "delete", 0}, Mut{p, "dup", 0}, Mut{p, "swapnext", 0})
 		}
+		if n != nil && !n.Constructed && n.Inner == nil && n.Raw == nil {
+			// the constructed (segmented) form BER allows for string types: one segment, two segments, a nested
+			// constructed segment, an empty constructed segment
+			for v := 0; v < 4; v++ {
+				out = append(out, Mut{p, "segmented", v})
+			}
+		}
 		if k := kidsOf(n); k != nil {
 			for t := 1; t <= len(*k); t++ {
 				out = append(out, Mut{p, "truncate", t})
@@ -397,6 +404,26 @@ func applyMut(root **sber.Node, m Mut, reps []*sber.Node) bool {
 			n.Constructed, n.Content = true, nil
 			n.Children = []*sber.Node{{Raw: raw}}
 		}
+	case "segmented":
+		if n.Constructed || n.Inner != nil || n.Raw != nil {
+			return false
+		}
+		raw := n.Content
+		seg := func(b []byte) *sber.Node {
+			return &sber.Node{Class: sber.Universal, Tag: sber.TagOctetString, Content: append([]byte{}, b...)}
+		}
+		var kids []*sber.Node
+		switch m.Arg {
+		case 0:
+			kids = []*sber.Node{seg(raw)}
+		case 1:
+			kids = []*sber.Node{seg(raw[:len(raw)/2]), seg(raw[len(raw)/2:])}
+		case 2:
+			kids = []*sber.Node{{Class: sber.Universal, Tag: sber.TagOctetString, Constructed: true, Children: []*sber.Node{seg(raw)}}}
+		default:
+			kids = []*sber.Node{{Class: sber.Universal, Tag: sber.TagOctetString, Constructed: true, Children: []*sber.Node{}}}
+		}
+		n.Constructed, n.Content, n.Children = true, nil, kids
 	case "class":
 		n.Class = (n.Class + m.Arg) % 4
 	case "tag":
